@@ -27,6 +27,9 @@ import (
 // ---------------------------------------------------------------------------------
 
 type c13Impl struct {
+	// allowErrors: the backend injects transient read failures; a read may then fail, but a read that
+	// succeeds must still be exact (a completed Store is visible to every later successful read)
+	allowErrors bool
 	name   string
 	build  func() (ae.Metastore, string) // returns the metastore and the region suffix it must report
 	suffix string
@@ -93,6 +96,22 @@ func c13Impls(thorough bool) []c13Impl {
 				want = "us-west-2"
 			}
 			return m, want
+		}})
+	}
+	for _, ver := range []string{"v1", "v2"} {
+		ver := ver
+		impls = append(impls, c13Impl{name: "dynamodb-" + ver + "-transient-read-errors", allowErrors: true, build: func() (ae.Metastore, string) {
+			fake := doubles.NewFakeDynamo("us-west-2", "EncryptionKey")
+			fake.FailReads = 1
+			c13Unsupported = func() []string { return fake.Unsupported }
+			if ver == "v1" {
+				return dynv1.NewDynamoDBMetastore(c13Session(), dynv1.WithClient(doubles.DynamoV1{F: fake})), ""
+			}
+			m, err := dynv2.NewDynamoDB(dynv2.WithDynamoDBClient(doubles.DynamoV2{F: fake}))
+			if err != nil {
+				panic(err)
+			}
+			return m, ""
 		}})
 	}
 	return impls
@@ -241,7 +260,9 @@ func c13Replay(impl c13Impl, hist []c13Op, ids []string, stamps []int64) (string
 				got, err := ms.Load(ctx, op.key.id, op.key.created)
 				if last {
 					if err != nil {
-						fail("load-error", "%v failed: %v", op, err)
+						if !impl.allowErrors {
+							fail("load-error", "%v failed: %v", op, err)
+						}
 					} else if d := c13Equal(got, ref[op.key]); d != "" {
 						fail("load-mismatch", "%v: %s", op, d)
 					}
@@ -250,7 +271,9 @@ func c13Replay(impl c13Impl, hist []c13Op, ids []string, stamps []int64) (string
 				got, err := ms.LoadLatest(ctx, op.key.id)
 				if last {
 					if err != nil {
-						fail("loadlatest-error", "%v failed: %v", op, err)
+						if !impl.allowErrors {
+							fail("loadlatest-error", "%v failed: %v", op, err)
+						}
 					} else if d := c13Equal(got, latest(op.key.id)); d != "" {
 						fail("loadlatest-mismatch", "%v: %s", op, d)
 					}
@@ -270,14 +293,18 @@ func c13Replay(impl c13Impl, hist []c13Op, ids []string, stamps []int64) (string
 					k := c13Key{id, c}
 					got, err := ms.Load(ctx, id, c)
 					if err != nil {
-						fail("readback-error", "after %v: Load(%s,%d) failed: %v", hist[len(hist)-1], id, c, err)
+						if !impl.allowErrors {
+							fail("readback-error", "after %v: Load(%s,%d) failed: %v", hist[len(hist)-1], id, c, err)
+						}
 					} else if d := c13Equal(got, ref[k]); d != "" {
 						fail("readback-mismatch", "after %v: Load(%s,%d): %s", hist[len(hist)-1], id, c, d)
 					}
 				}
 				got, err := ms.LoadLatest(ctx, id)
 				if err != nil {
-					fail("readback-error", "after %v: LoadLatest(%s) failed: %v", hist[len(hist)-1], id, err)
+					if !impl.allowErrors {
+						fail("readback-error", "after %v: LoadLatest(%s) failed: %v", hist[len(hist)-1], id, err)
+					}
 				} else if d := c13Equal(got, latest(id)); d != "" {
 					fail("readback-latest-mismatch", "after %v: LoadLatest(%s): %s", hist[len(hist)-1], id, d)
 				}
